@@ -37,7 +37,16 @@ def run(ctx):
         s["boostvar"] = i % 4
     extra = shipped_scenarios(rnd, 60 if q else 1500)
     for i, s in enumerate(extra):
-        s.update(entry="universal", boost=True, boostvar=i % 4, limit=7000)
+        s.update(entry="universal", boost=True, boostvar=i % 7, limit=7000)
+    # boosted words that the NLP analysis itself emphasises (actions / targets)
+    for raw, corpus in [("delete item", "mix"), ("install item", "mix"), ("run item question", "mix"), ("find item", "mix"), ("list item", "mix"),
+                        ("show item question", "mix"), ("install package", "shipped"), ("npm install express", "shipped"), ("run tests", "shipped"),
+                        ("build docker image", "shipped"), ("kubectl get service", "shipped"), ("list running process", "shipped"),
+                        ("delete a directory", "shipped"), ("copy file to remote service", "shipped")]:
+        for nlp in (True, False):
+            for bv in (4, 5, 6):
+                extra.append(dict(entry="universal", limit=7000, nlp=nlp, fuzzy=False, thr=0, ponly=False, pboost=False, allplat=True, plats=[],
+                                  nocross=False, boost=True, boostvar=bv, query="raw", raw=raw, corpus=corpus))
     # boosts on real words of the shipped database
     tr, info, ok, rej = engine.run_cases(ctx, scen + extra, ["C13"])
     for x in rej:
